@@ -97,6 +97,14 @@ def check_mask(o):
             elif m.shape != want.shape or not np.array_equal(m.astype(bool), want):
                 bad.append((cls + ": containment error does not identify exactly the outside points, once per input point",
                             {"batch": b, "got": m, "want": want}, None))
+    # the same containment decides which pixels a boolean image keeps (constrain_to_pointcloud): one flag per index, any batch size
+    from menpo.image.boolean import pwa_point_in_pointcloud
+    from menpo.shape import TriMesh
+
+    inside = np.asarray(pwa_point_in_pointcloud(TriMesh(L.pts(o["S"]), trilist=np.array(o["tris"], dtype=int) - 1), pts.copy(), batch_size=b))
+    if inside.shape != want.shape or not np.array_equal(inside.astype(bool), ~want):
+        bad.append(("pwa_point_in_pointcloud (BooleanImage.constrain_to_pointcloud) does not flag exactly the points inside the triangulation",
+                    {"batch": b, "got": inside, "want": ~want}, None))
     return bad
 
 
